@@ -12,7 +12,7 @@ NOTES = ("Bounded-exhaustive model checking of the real library against an indep
          "see DESIGN.md. Exit 0 = held on everything explored, 1 = VIOLATION line(s), 2 = harness error.")
 NOT_YET = {}
 CHECKS["C11"] = dict(
-    text="Every token tree up to the node bound, under every layout/comment/case deviation combination up to the deviation bound and through both entry points, plus every single-parenthesis fault, is run on the real tokenizer and compared with the generating tree: an exhaustive enumeration of the input-shape space in which each defect class of a reader (token merge/split, comment handling, truncation) has a smallest witness.",
+    text="Every token tree up to the node bound (usual PDDL atoms and atoms with other printable characters), under every layout/comment/case deviation combination up to the deviation bound and through both entry points, plus every single-parenthesis fault and repeated parse() calls on one tokenizer object, is run on the real tokenizer and compared with the generating tree: an exhaustive enumeration of the input-shape space in which each defect class of a reader (token merge/split, comment handling, truncation) has a smallest witness.",
     note="trusted: the tree generator/renderer and pv.sexp (cross-checked against each other on every text); alphabets and bounds as stated in evidence.rule",
     technique="bounded-exhaustive enumeration of token trees x layout deviations x parenthesis faults against a generating-tree oracle",
 )
@@ -23,19 +23,19 @@ CHECKS["C01"] = dict(
     text="Every domain text of the bounded grammar (in-fragment corpus, out-of-fragment table, declaration variants, 4 layouts) is parsed by the real parser; its vocabulary and, over every call and every state of the program's relevant universe, the meaning of what was parsed are compared with an independent reading of the same text. A small-scope exhaustive enumeration is the right level: each way a parser can drop, negate or re-arity a construct has a witness with <= 3 literals and <= 3 objects.",
     note=_REF, technique="bounded-exhaustive program x state x call enumeration; parse result vs independent reference reading of the source text")
 CHECKS["C02"] = dict(
-    text="Every precondition of the bounded grammar x every type-correct call x every state of the relevant universe x operand-iteration orders (deviation-bounded DFS over set orders) is queried on the real Operator and compared with the reference truth value: full truth tables instead of spot facts.",
+    text="Every precondition of the bounded grammar x every type-correct call x every state of the relevant universe x operand-iteration orders (deviation-bounded DFS over set orders), object-declaration orders and one Operator re-used over successive states is queried on the real Operator and compared with the reference truth value: full truth tables instead of spot facts.",
     note=_REF, technique="bounded-exhaustive formula x state x call enumeration + deviation-bounded exploration of set-iteration orders, reference-model oracle")
 CHECKS["C03"] = dict(
-    text="Every effect program of the bounded grammar x every applicable consistent (state, call) x effect-collection orders is applied on the real Operator; the whole serialized successor (frame included) is compared with the reference successor, and every explored order must give that same state.",
+    text="Every effect program of the bounded grammar x every applicable consistent (state, call) x effect-collection orders, object-declaration orders and one Operator re-used over successive states is applied on the real Operator; the whole serialized successor (frame included) is compared with the reference successor, and every explored order must give that same state.",
     note=_REF, technique="bounded-exhaustive program x state x call enumeration + deviation-bounded exploration of effect-set iteration orders, reference-model oracle")
 CHECKS["C08"] = dict(
     text="Every generated in-fragment program and every shipped domain file goes through export -> parse -> export -> parse under every explored iteration order of the exporter's sets; vocabulary, structure and the implementation's own behaviour table before and after are compared.",
     note=_REF + "; differential oracle (implementation vs implementation) for behaviour", technique="bounded-exhaustive round-trip enumeration with differential behaviour tables and set-order exploration")
 CHECKS["C18"] = dict(
-    text="Every program of the bounded corpus x every renaming of the menu (fresh, all permutations, chains, partial) is renamed with the real change_signature and its full behaviour table is compared with the untouched parse and the reference.",
+    text="Every program of the bounded corpus (incl. twin literals that a permutation maps onto one another) x every renaming of the menu (fresh, all permutations, chains, partial; maps listed in signature order and backwards) is renamed with the real change_signature and its full behaviour table is compared with the untouched parse and the reference.",
     note=_REF, technique="bounded-exhaustive program x renaming x state x call enumeration, differential + reference oracle")
 CHECKS["C20"] = dict(
-    text="Every program of the bounded corpus x every type-correct call is grounded by the real Operator and the reported grounded literals / expressions / typed forms are compared with positional substitution computed from the source text.",
+    text="Every program of the bounded corpus x every type-correct call is grounded by the real Operator (with and without the problem objects; re-read after the operator was applied) and the reported grounded literals / expressions / typed forms are compared with positional substitution computed from the source text.",
     note=_REF, technique="bounded-exhaustive program x call enumeration, substitution oracle computed from the source text")
 CHECKS["C04"] = dict(
     text="All plans (every sequence of type-correct calls, applicable or not) up to the length bound over three mini-domains are executed through TrajectoryExporter.parse_plan (sequence, three plan-file layouts, allow switch) and by direct Operator.apply chaining; every triplet, the chaining and the exported text are compared step by step with the reference transition function.",
